@@ -31,6 +31,18 @@ def heap_key(run, v, res=None):
         collections = st.get("stw_operations", 0)
         if collections * 65536 >= 0.4 * (heap_mb << 20):
             return "swiper:sparse-page-promotion:trap:OOM"
+    if v[0] == "trap:OOM" and run["exe"][1] == "sweep" and run["exe"][0] == "heapgraph":
+        # non-moving collector: survivors spread by KEEPCHURN, then a request that needs a
+        # contiguous block larger than a TLAB (>= 8 KiB)
+        a = run["argv"]
+        ops = [tuple(a[1 + 4 * k: 5 + 4 * k]) for k in range((len(a) - 1) // 4)]
+        seen_keep = False
+        for (op, x, y, z) in ops:
+            if op == mh.OPS["KEEPCHURN"] and y > 0 and x >= 20000:
+                seen_keep = True
+            elif seen_keep and ((op in (mh.OPS["NEW"], mh.OPS["ARR"]) and y >= 1000) or (op == mh.OPS["PAIRS"] and y >= 500) or (op == mh.OPS["CHURN"] and y >= 1000)
+                                or (op == mh.OPS["STR"] and y >= 90)):
+                return "sweep:fragmentation-large-request:trap:OOM"
     return "%s:%s" % (run["exe"][0], v[0])
 
 
